@@ -24,9 +24,10 @@ class Walker:
     source text), symbolic values of string / bool locals assigned inside the unit, and the word
     emitted to the accumulator."""
 
-    def __init__(self, fi, acc, classify, pre=None, nested_loop_token=None):
+    def __init__(self, fi, acc, classify, pre=None, nested_loop_token=None, extra_accs=()):
         self.fi = fi
         self.acc = acc
+        self.extra_accs = set(extra_accs)
         self.classify = classify
         self.pre = pre or {}
         self.paths = []
@@ -97,6 +98,14 @@ class Walker:
         if isinstance(st, (ast.Continue, ast.Break, ast.Return, ast.Raise)):
             self.paths.append((atoms, word, env))
             return
+        if isinstance(st, ast.AugAssign) and isinstance(st.target, ast.Name) and st.target.id in self.extra_accs and isinstance(st.op, ast.Add):
+            toks = self.classify(st.value, env)
+            word = word + [("DEFER", st.target.id, len(toks))] + toks
+            self._block(rest, atoms, env, word, cont)
+            return
+        if isinstance(st, ast.Assign) and len(st.targets) == 1 and isinstance(st.targets[0], ast.Name) and st.targets[0].id in self.extra_accs:
+            self._block(rest, atoms, env, word, cont)
+            return
         if isinstance(st, ast.AugAssign) and isinstance(st.target, ast.Name) and st.target.id == self.acc:
             if not isinstance(st.op, ast.Add):
                 word = word + [("BAD", "accumulator %s=" % type(st.op).__name__)]
@@ -138,7 +147,7 @@ class Walker:
 
 
 def _letters(word, table):
-    return "".join(table.get(t[0] if t[0] != "SYM" else "SYM" + t[1], "?") for t in word)
+    return "".join(table.get(t[0] if t[0] != "SYM" else "SYM" + t[1], "?") for t in word if t[0] != "DEFER")
 
 
 # ---------------------------------------------------------------------------
@@ -397,18 +406,19 @@ def emit_write_graph(repo, tier="quick"):
             if e.func.id == "format_bonding":
                 return [("DESC",)]
             if e.func.id == "str" and len(e.args) == 1:
-                return [("MARK",)]
+                return [("MARK", "digit")]
         if isinstance(e, ast.Call) and isinstance(e.func, ast.Attribute) and e.func.attr == "format" and isinstance(e.func.value, ast.Constant) and \
                 isinstance(e.func.value.value, str) and e.func.value.value.startswith("%"):
-            return [("MARK",)]
+            return [("MARK", "percent")]
         if isinstance(e, ast.IfExp):
             a, b = classify(e.body, env, strict), classify(e.orelse, env, strict)
-            if a == [("MARK",)] and b == [("MARK",)]:
-                return [("MARK",)]
+            if a and b and len(a) == 1 and len(b) == 1 and a[0][0] == "MARK" and b[0][0] == "MARK":
+                return [("MARK", "either" if a[0][1] != b[0][1] else a[0][1])]
             return [("BAD", ast.unparse(e))] if strict else None
         if isinstance(e, ast.JoinedStr):
             if any(isinstance(v, ast.FormattedValue) for v in e.values):
-                return [("MARK",)]
+                lit = "".join(v.value for v in e.values if isinstance(v, ast.Constant) and isinstance(v.value, str))
+                return [("MARK", "percent" if lit.startswith("%") else "digit")]
         if strict:
             return [("BAD", ast.unparse(e))]
         return None
@@ -491,15 +501,41 @@ def emit_write_graph(repo, tier="quick"):
         obs.append(ob_ok("EMIT.write_graph", fi, lp, construct="per-node words over %d paths match SYM? '('? NODE DESC? RINGS ')'? (cg) / '('? SYM? NODE ... (smiles)" % n_paths,
                          instance="node-word", reason="tree-edge symbols are written exactly when needed and where the reader of that format looks for them",
                          detail={"paths": n_paths}))
+    # deferred accumulators of the ring loop: `x = ''` before it, `x += ...` inside, `acc += x` after it
+    deferred = set()
+    parent_body = None
+    for sub in ast.walk(lp):
+        for field in ("body", "orelse"):
+            b = getattr(sub, field, None)
+            if isinstance(b, list) and any(x is rl for x in b):
+                parent_body = b
+    if parent_body is not None:
+        idx = [i for i, x in enumerate(parent_body) if x is rl][0]
+        inits = {st.targets[0].id for st in parent_body[:idx] if isinstance(st, ast.Assign) and isinstance(st.targets[0], ast.Name)
+                 and isinstance(st.value, ast.Constant) and st.value.value == ""}
+        after = {st.value.id for st in parent_body[idx + 1:] if isinstance(st, ast.AugAssign) and isinstance(st.target, ast.Name) and st.target.id == acc
+                 and isinstance(st.op, ast.Add) and isinstance(st.value, ast.Name)}
+        deferred = inits & after
     # ring unit
     rfails = {}
     rn = 0
+    percent_inline = []
     for F, NEW, SR in itertools.product((False, True), (False, True), (False, True)):
         pre = {fmt: F, ast.unparse(NEW_inner): (NEW if new_is_true_arm else not NEW), SR_text: SR}
-        w = Walker(fi, acc, classify, pre=pre)
+        w = Walker(fi, acc, classify, pre=pre, extra_accs=deferred)
         paths = w.run(rl.body)
         for atoms, word, env in paths:
             rn += 1
+            # which MARK tokens go straight into the string, which are deferred to after the loop
+            i = 0
+            while i < len(word):
+                t = word[i]
+                if t[0] == "DEFER":
+                    i += 1 + t[2]
+                    continue
+                if t[0] == "MARK" and t[1] in ("percent", "either"):
+                    percent_inline.append((atoms, word))
+                i += 1
             s = _letters(word, letters)
             mode = "smiles" if F else "cg"
             need_sym = NEW and SR
@@ -523,6 +559,12 @@ def emit_write_graph(repo, tier="quick"):
     else:
         obs.append(ob_ok("EMIT.write_graph", fi, rl, construct="per-ring words over %d paths match SYMring? MARK, symbol iff new marker and needed" % rn, instance="ring-word",
                          reason="ring bond orders are written before the opening marker in both modes", detail={"paths": rn}))
+    # marker order: a %nn marker is never written where a single-digit marker of the same node can follow it
+    (obs.append(ob_fail("EMIT.marker-order", fi, rl, construct="a two-digit marker (%nn) is appended inside the marker loop", instance="percent-last",
+                        reason="the CGsmiles reader takes every digit after a % as part of that marker: `%10` directly followed by marker 3 is read as ring 103. "
+                               "Two-digit markers have to be written after all single-digit markers of the node")) if percent_inline else
+     obs.append(ob_ok("EMIT.marker-order", fi, rl, construct="two-digit markers are collected and written after the loop", instance="percent-last",
+                      reason="no digit marker can follow a %nn marker of the same node")))
     # SIB S5: symbol emission independent of the node-format flag
     dep = [k for k in list(fails) + list(rfails) if k[0].endswith("missing") or k[0].endswith("spurious")]
     modes = {}
